@@ -767,7 +767,9 @@ def named_tuple_fields(repo: Repo, cname: str):
         out = None
         for mi in repo.modules.values():
             ci = mi.classes.get(cname)
-            if ci is not None and any(unparse(b).split(".")[-1] == "NamedTuple" for b in ci.node.bases):
+            frozen_dc = ci is not None and any(unparse(d).replace(" ", "") in ("dataclass(frozen=True)", "dataclasses.dataclass(frozen=True)")
+                                               for d in ci.node.decorator_list)
+            if ci is not None and (frozen_dc or any(unparse(b).split(".")[-1] == "NamedTuple" for b in ci.node.bases)):
                 out = [(st.target.id, st.value) for st in ci.node.body if isinstance(st, ast.AnnAssign) and isinstance(st.target, ast.Name)]
                 out = (mi.name, out)
         repo.memo[key] = out
@@ -1073,6 +1075,21 @@ class Walker:
                 if elements_only and t[0] == "attr" and t[2] in fields and not reads_field(t[1], fields, owner):
                     continue
                 if reads_field(t, fields, owner):
+                    if t[0] == "tuple" and not any(x[0] == "star" for x in t[1]):
+                        # a tuple of values is stale element by element (the tuple itself is immutable)
+                        items = []
+                        for x in t[1]:
+                            if x[0] != "old" and reads_field(x, fields, owner) and not (keep is not None and keep(x)):
+                                self._old += 1
+                                why = set()
+                                for f, cs in fields.items():
+                                    if reads_field(x, {f}, owner):
+                                        why |= set(cs)
+                                self.old_cause[self._old] = why
+                                x = ("old", x, self._old)
+                            items.append(x)
+                        e[name] = ("tuple", tuple(items))
+                        continue
                     self._old += 1
                     e[name] = ("old", t, self._old)
                     why = set()
@@ -2340,6 +2357,19 @@ class Walker:
                                     d.split("(")[0].split(".")[-1] == "property" for d in g.decorators):
                             return self.inline_call(g, ("self",), (), (), e)
                         break
+            if isinstance(e.ctx, ast.Load) and base != ("self",) and owner_kind(base) == "graph":
+                # the same for a computed view of a graph object (`self.subgraph.pdf_parameters`): the one definition the
+                # graph classes have of it
+                gs = [ci_g.getters[e.attr] for mi_g in self.repo.modules.values() for ci_g in mi_g.classes.values()
+                      if ci_g.name in ("Subgraph", "KNNSubgraph") and e.attr in ci_g.getters and e.attr not in ci_g.setters]
+                if len(gs) == 1 and api_signature(gs[0]) is None and gs[0] not in self.fnstack and len(self.fnstack) <= self.max_depth \
+                        and all(d.split("(")[0].split(".")[-1] == "property" for d in gs[0].decorators):
+                    saved_cls = self.self_class
+                    self.self_class = gs[0].cls
+                    try:
+                        return self.inline_call(gs[0], base, (), (), e)
+                    finally:
+                        self.self_class = saved_cls
             if base == ("self",) and isinstance(e.ctx, ast.Load) and self.self_class:
                 ext = extension_fields(self.repo, self.self_class)
                 if e.attr.lstrip("_") in ext and self.fnstack[-1].name != "__init__" \
@@ -2746,8 +2776,11 @@ class Walker:
                 for k, v in kwargs:
                     items[cands[0].index(k)] = v
                 return ("tuple", tuple(items))
+        # calling a record whose class defines __call__
+        if fn[0] == "tuple" and not any(a[0] == "star" for a in args):
+            fn = ("attr", fn, "__call__")
         # a method of the one NamedTuple record class of that size that has it: its body, with self the record
-        if fn[0] == "attr" and fn[1][0] == "tuple" and not fn[2].startswith("_"):
+        if fn[0] == "attr" and fn[1][0] == "tuple" and (not fn[2].startswith("_") or fn[2] == "__call__"):
             meths = []
             for mi_r in self.repo.modules.values():
                 for cname_r, ci_r in mi_r.classes.items():
@@ -3194,6 +3227,94 @@ def substitute_view(w, mapping: Dict[Term, Term]):
     return view
 
 
+def settle_record_carries(w) -> int:
+    """A loop-carried variable that holds a record (`best = Best(acc, t, model)` ... `best = Best(...)` under a test): one
+    carried variable per field, `best.accuracy` / `best[0]` reading the first of them.  Rewritten in place when every value
+    the variable takes is a record of the same size and every use of it is a field read."""
+    import dataclasses
+    done = 0
+    for li in list(w.loops.values()):
+        for v, (init, end) in list(li.carried.items()):
+            if init[0] != "tuple" or not init[1] or any(x[0] == "star" for x in init[1]):
+                continue
+            n = len(init[1])
+            phi = ("phi", li.lid, v)
+
+            def leaves(t):
+                if t[0] == "sel":
+                    return leaves(t[2]) + leaves(t[3])
+                return [t]
+            if not all(x == phi or (x[0] == "tuple" and len(x[1]) == n) for x in leaves(end)):
+                continue
+            names = [nm for nm in all_named_tuples(w.repo) if len(nm) == n]
+
+            def field_pos(attr):
+                pos = {nm.index(attr) for nm in names if attr in nm}
+                return pos.pop() if len(pos) == 1 else None
+            part = lambda k: ("phi", li.lid, f"{v}.{k}")
+            state = {"ok": True}
+
+            def R(t):
+                if t is None or not isinstance(t, tuple) or not t:
+                    return t
+                if t[0] == "attr" and t[1] == phi:
+                    k = field_pos(t[2])
+                    if k is None:
+                        state["ok"] = False
+                        return t
+                    return part(k)
+                if t[0] == "idx" and t[1] == phi and t[2][0] == "const" and isinstance(t[2][1], int) and -n <= t[2][1] < n:
+                    return part(t[2][1] % n)
+                if t == phi:
+                    return ("tuple", tuple(part(k) for k in range(n)))
+                t = tuple(R(x) if isinstance(x, tuple) else x for x in t)
+                if t[0] in ("attr", "idx") and t[1][0] == "sel":
+                    # a field of the merged record (`best.model` after `if acc > best.accuracy: best = Best(...)`)
+                    k = field_pos(t[2]) if t[0] == "attr" else (t[2][1] % n if t[2][0] == "const" and isinstance(t[2][1], int)
+                                                                 and -n <= t[2][1] < n else None)
+
+                    def pick(x):
+                        if x[0] == "sel":
+                            a, b = pick(x[2]), pick(x[3])
+                            if a is None or b is None:
+                                return None
+                            return a if a == b else ("sel", x[1], a, b)
+                        return x[1][k] if x[0] == "tuple" and len(x[1]) == n else None
+                    got = pick(t[1]) if k is not None else None
+                    if got is not None:
+                        return got
+                return t
+
+            def proj(t, k):
+                if t[0] == "sel":
+                    a, b = proj(t[2], k), proj(t[3], k)
+                    return a if a == b else ("sel", R(t[1]), a, b)
+                return part(k) if t == phi else R(t[1][k])
+            new_events = [dataclasses.replace(e, target=R(e.target), value=R(e.value), args=tuple(R(a) for a in (e.args or ())),
+                                              kwargs=tuple((k2, R(x)) for k2, x in (e.kwargs or ())),
+                                              guards=tuple((R(g), pol) for g, pol in e.guards)) for e in w.events]
+            new_loops = {}
+            for lid, l2 in w.loops.items():
+                car = {}
+                for n2, (a2, b2) in l2.carried.items():
+                    if lid == li.lid and n2 == v:
+                        for k in range(n):
+                            car[f"{v}.{k}"] = (init[1][k], proj(end, k))
+                    else:
+                        car[n2] = (R(a2), R(b2))
+                new_loops[lid] = (R(l2.cond), R(l2.domain), tuple((R(g), pol) for g, pol in l2.guards), car)
+            if not state["ok"]:
+                continue
+            w.events[:] = new_events
+            for lid, (c2, d2, g2, car) in new_loops.items():
+                l2 = w.loops[lid]
+                l2.cond, l2.domain, l2.guards, l2.carried = c2, d2, g2, car
+            for g, src in list(w.guard_src.items()):
+                w.guard_src.setdefault(R(g), src)
+            done += 1
+    return done
+
+
 def settle_optional_minima(w) -> int:
     """`best = None` before a scan and every test of it in the scan of the form `best is None or x < best` (or the negation
     `best is not None and best <= x`): the running minimum starts at "nothing yet", which every candidate beats.  For finite
@@ -3210,6 +3331,27 @@ def settle_optional_minima(w) -> int:
             N = ("cmp", "is", phi, ("const", None))
             NN = ("cmp", "is not", phi, ("const", None))
             state = {"ok": True, "n": 0}
+            # minimum or maximum?  The acceptance test under which the variable is replaced says: `x < best` / `best < x`
+            start = None
+            t_end = end
+            while t_end[0] == "sel" and start is None:
+                c_end = t_end[1]
+                parts = c_end[1] if c_end[0] == "or" else ()
+                if N in parts:
+                    xs = [x for x in parts if x[0] == "cmp" and x[1] in ("<", "<=") and phi in (x[2], x[3])]
+                    if len(xs) == 1:
+                        start = ("K", "FLOAT_MAX") if xs[0][3] == phi else ("neg", ("K", "FLOAT_MAX"))
+                    break
+                t_end = t_end[2] if t_end[3] == phi else t_end[3]
+            if start is None:
+                # `not best or x < best`: "nothing yet" tested by truthiness, which a best of exactly 0 also is
+                ordc = lambda t: t[0] == "cmp" and t[1] in ("<", "<=") and phi in (t[2], t[3])
+                truthy = [e for e in w.events for g, _ in e.guards
+                          if (g[0] == "or" and ("not", phi) in g[1] and any(ordc(x) for x in g[1]))
+                          or (g == phi and any(ordc(g2) for g2, _ in e.guards))]
+                if truthy and not any(u in (N, NN) for e in w.events for g, _ in e.guards for u in subterms(g)):
+                    w.__dict__.setdefault("truthy_optional", []).append((v, li.lid, truthy[0]))
+                continue
 
             def orders(t):
                 return t[0] == "cmp" and t[1] in ("<", "<=") and phi in (t[2], t[3])
@@ -3249,13 +3391,6 @@ def settle_optional_minima(w) -> int:
             for lid, l2 in w.loops.items():
                 new_loops[lid] = (R(l2.cond), R(l2.domain), RG(l2.guards),
                                   {n: (R(a), R(b)) for n, (a, b) in l2.carried.items()})
-            if state["n"] == 0:
-                # `not best or x < best`: "nothing yet" tested by truthiness, which a best of exactly 0 also is
-                truthy = [e for e in w.events for g, _ in e.guards
-                          if (g[0] == "or" and ("not", phi) in g[1] and any(orders(x) for x in g[1]))
-                          or (g == phi and any(orders(g2) for g2, _ in e.guards))]
-                if truthy:
-                    w.__dict__.setdefault("truthy_optional", []).append((v, li.lid, truthy[0]))
             if not state["ok"] or state["n"] == 0:
                 continue
             new_src = {R(g): src for g, src in w.guard_src.items() if g not in (N, NN)}
@@ -3266,7 +3401,7 @@ def settle_optional_minima(w) -> int:
             for g, src in new_src.items():
                 w.guard_src.setdefault(g, src)
             a0, b0 = w.loops[li.lid].carried[v]
-            w.loops[li.lid].carried[v] = (("K", "FLOAT_MAX"), b0)
+            w.loops[li.lid].carried[v] = (start, b0)
             done += 1
     return done
 
@@ -3527,8 +3662,8 @@ NODE_NUMBER_FIELDS = ("idx", "pred", "root", "cost", "density", "radius", "statu
 
 def never_none(t: Term) -> bool:
     """A value that is an object of this walk or the result of a numpy constructor / array method: not None."""
-    if t[0] in ("alloc", "new", "tuple", "dict", "list", "listcomp"):
-        return True
+    if t[0] in ("alloc", "new", "tuple", "dict", "list", "listcomp", "hremove"):
+        return True  # (hremove: the element Heap.remove() hands back, a node number)
     if t[0] == "call" and t[1][0] == "mod" and t[1][1].startswith("numpy."):
         return True
     if t[0] == "call" and t[1][0] == "attr" and t[1][2] in ARRAY_VIEWS:
